@@ -7,6 +7,7 @@ from typing import Optional, Union
 # websocket modules
 from ._abnf import ABNF, STATUS_NORMAL, continuous_frame, frame_buffer
 from ._exceptions import (
+    WebSocketBadStatusException,
     WebSocketConnectionClosedException,
     WebSocketException,
     WebSocketProtocolException,
@@ -286,6 +287,14 @@ class WebSocket:
                     self.handshake_response = handshake(
                         self.sock, url, *addrs, **options
                     )
+            if self.handshake_response.status in SUPPORTED_REDIRECT_STATUSES:
+                # still being redirected after redirect_limit hops: not an established connection
+                raise WebSocketBadStatusException(
+                    f"Handshake status {self.handshake_response.status}: redirect limit exceeded",
+                    self.handshake_response.status,
+                    None,
+                    self.handshake_response.headers,
+                )
             self.connected = True
         except:
             if self.sock:
